@@ -116,6 +116,22 @@ class ExtraStatus(ConvergenceController):
         S.levels[0].status.c19_level_marker = S.status.iter
 
 
+class HookRegistrar(ConvergenceController):
+    """a convergence controller that registers a hook of its own on ITS controller (as the shipped error estimators and step-size controllers do)"""
+
+    def setup(self, controller, params, description, **kw):
+        controller.add_hook(RegisteredHook)
+        return {'control_order': -8, **super().setup(controller, params, description, **kw)}
+
+
+class RegisteredHook(Hooks):
+    """the hook HookRegistrar brings along: its records belong to the controller that carries a HookRegistrar and to no other"""
+
+    def post_step(self, step, level_number):
+        super().post_step(step, level_number)
+        self.add_to_stats(process=step.status.slot, time=step.levels[0].time, level=-1, iter=step.status.iter, sweep=0, type='c19_registered', value=1)
+
+
 class ExtraHook(Hooks):
     def post_step(self, step, level_number):
         super().post_step(step, level_number)
@@ -214,7 +230,7 @@ def scenario_case(rep, scenario, cfg):
             cfgS = dict(cfg, _shared=shared)
             _, u1, s1, _ = run_once(c, cfgS, xs=xs)
             before = copy.deepcopy({k: v for k, v in shared['cp'].items() if k != 'hook_class'})
-            single = dict(cfgS, M=cfg['M'][:1], NP=1)
+            single = dict(cfgS, M=cfg['M'][:1], NP=1, extra_cc={HookRegistrar: {}})  # (one of its convergence controllers registers a hook of its own on THAT controller)
             run_once(c, single, xs=[z3.Real('y0')] * cfg['n'])
             run_once(c, dict(cfgS, NP=cfg['NP'] + 1), xs=[z3.Real('y0')] * cfg['n'])  # (the SAME description with another number of parallel steps)
             _, u2, s2, _ = run_once(c, cfgS, xs=xs)
@@ -337,7 +353,7 @@ def float_runs(scenario, cfg, x=0.7321):
         cS = dict(cfg, _shared=shared)
         c1, _ = wr.build(cS, float_mode=True)
         _, a, _ = go(c1)
-        cA, _ = wr.build(dict(cS, M=cfg['M'][:1], NP=1), float_mode=True)
+        cA, _ = wr.build(dict(cS, M=cfg['M'][:1], NP=1, extra_cc={HookRegistrar: {}}), float_mode=True)
         PA = cA.MS[0].levels[0].prob
         uA = PA.dtype_u(PA.init)
         uA[:] = x
